@@ -17,6 +17,12 @@ CHECKS = {
  'C04': dict(technique='symbolic execution of the FokkerPlanckMap constructor and apply from LLVM IR with symbolic damping decrement; exact moment recurrences per unit cell decided by z3, convergence consequences by SMT algebra',
              text='bounded symbolic verification: for every e1 in (0,1/4], all 4 Fokker-Planck types and both stencils the real operator maps (M0,M1,M2) by the exact recurrences (M0 kept, M1 damped by 1-e1, M2 -> (1-2e1)M2 + e1(2-d^2)M0 resp. +2e1 M0), linear in the data; hence geometric convergence to a start-independent limit within grid error of 1, monotone shrink/growth for damping/diffusion only',
              ref='4/C04'),
+ 'C06': dict(technique='symbolic execution of ElectricField::wakePotential/padBunchProfiles, the constructor and WakePotentialMap::update from LLVM IR with the FFT as uninterpreted functions of whole buffers; z3 decides term identity with the convolution formula',
+             text='bounded symbolic verification: for every profile of every bunch and every complex impedance sample the returned wake potential is scaling*c2r(Z_k*r2c(train)_k, k<N/2)[bucket*spacing+x] with the train built by placing each profile at bucket*spacing, independent of samples k>=N/2; scaling == Ib*dt*c/(scale*delta_p*sigma_delta*E0)/N from the constructor run on 0xA5-filled FFT buffers; the wake kick copies bunch b to rows of bunch b; N up to 16 incl. prime/composite, empty buckets',
+             ref='4/C06'),
+ 'C07': dict(technique='symbolic execution of ElectricField::updateCSR and wakePotential from LLVM IR; uninterpreted FFT for structure and signs, exact rational DFT at N=4 for the Parseval identity; z3 NRA',
+             text='bounded symbolic verification: spectrum[b][k] == delta_q^2 Re Z_k |r2c(profile_b)_k|^2 (0 above N/2), intensity == delta_f*sum, non-negative for passive impedances, with cutoff 0 <= cut <= uncut; Parseval (spectrum sum == half of profile times unscaled wake minus DC term) for all profiles and complex impedances at N=4 with the documented DFT written out',
+             ref='4/C07'),
  'C08': dict(technique='differential symbolic execution of the real LLVM IR (multi-bunch vs single-bunch objects) on native snapshots, z3 NRA unsat per bunch',
              text='bounded symbolic verification: for every data value of every bunch and every fractional displacement (integer parts fixed per row) the B-bunch kernels equal the single-bunch kernels cell by cell, for generic x/y kicks, both RF models, drift, Fokker-Planck (3/4-point) and identity, grids 6-9, 2-3 bunches, 1-4 interpolation points',
              ref='4/C08'),
@@ -26,6 +32,9 @@ CHECKS = {
  'C19': dict(technique='symbolic execution of both DynamicRFKickMap constructors, __calcModulation, apply and getPastModulation from LLVM IR against the static RFKickMap (reals with uninterpreted tan/sin/asin; z3 IEEE theory for the zero-amplitude queue entries)',
              text='bounded symbolic verification: dynamic map with zero amplitudes has the same members and displacement field as the static map for all machine parameters (both models); zero-amplitude queue entries are bit-identical to (syncphase,1) for every finite noise draw; apply consumes exactly the queue front, kicks with it and records it; flush hands out every record once',
              ref='4/C19'),
+ 'C18': dict(technique='symbolic execution of every call history (wakePotential, padBunchProfiles, updateCSR; length <= 2/3, independent symbolic profiles) from LLVM IR with the FFT as an uninterpreted function of its entire input buffer; term identity with a fresh object decided by z3',
+             text='bounded symbolic verification: after every history of up to 2 (quick) / 3 (thorough) calls with arbitrary earlier profiles, each of the three queries returns terms identical to those of the untouched snapshot object, for power-of-two, composite and prime transform lengths and bunch patterns with empty buckets; FFT stub assumptions calibrated natively per configuration',
+             ref='4/C18'),
 }
 NA = {
 }
